@@ -38,6 +38,8 @@ RowCode(r) ==
   ELSE IF maxTs < r.we + cfg.moo THEN <<"delivered_before_watermark_passed_end", "">>
   ELSE IF \E id \in SeqSet(r.ids) : em[id].fut = 1 THEN <<"future_garbage_counted", "">>
   ELSE IF \E id \in SeqSet(r.ids) : em[id].g # r.g THEN <<"row_in_wrong_key", "">>     \* on time or late: only the key's own events
+  \* an event that was late on arrival is reported, if at all, inside the interval of the session that reports it
+  ELSE IF \E id \in SeqSet(r.ids) : em[id].late /\ ~(r.ws <= em[id].ts /\ em[id].ts < r.we) THEN <<"late_event_outside_session_interval", "">>
   ELSE LET S == OnT(r.ids)  prev == PrevOf(r) IN
        IF S = {} THEN <<"", "">>                                   \* only late rows: outside C10's guarantee
        ELSE IF prev # {} THEN
